@@ -82,6 +82,10 @@ func caseC17(c *Ctx) {
 	// JSON round trip of handles and of the dump
 	for h := range a.M.Ledger {
 		b, err := json.Marshal(h)
+		if err == nil && a.Cov.N["json_handles"]%3 == 1 {
+			// (a save file written for people to read: indented, one number per line)
+			b, err = json.MarshalIndent(h, " ", "\t")
+		}
 		var back ecs.Entity
 		if err != nil || json.Unmarshal(b, &back) != nil || back != h {
 			a.fail("json.handle", "handle %v changed by a JSON round trip: %s -> %v", h, b, back)
@@ -92,6 +96,10 @@ func caseC17(c *Ctx) {
 	load := d
 	if c.Case%2 == 0 && !a.Failed() {
 		b, err := json.Marshal(d)
+		if err == nil && c.Case%6 == 2 {
+			b, err = json.MarshalIndent(d, "", "  ")
+			a.Cov.N["json_indented_dumps"]++
+		}
 		var back ecs.EntityDump
 		if c.Case%4 == 0 {
 			// decoded into a variable that held another dump before (a program that loads one save after another)
